@@ -35,6 +35,11 @@ type probe struct {
 
 var pendingReplays = map[string]*Obligation{} // replay path → obligation (same process)
 
+func fileExists(p string) bool {
+	_, err := os.Stat(p)
+	return err == nil
+}
+
 func templatePath(cfg *Config, unitKey string) string {
 	return filepath.Join(cfg.Verif, "replay", unitKey+".go.tmpl")
 }
@@ -141,6 +146,9 @@ func replayOnRealCode(cfg *Config, ld *Loaded, replayPath string) bool {
 	}
 	unitKey := o.Unit.key
 	tp := templatePath(cfg, unitKey)
+	if kp := filepath.Join(cfg.Verif, "replay", unitKey+"@"+o.Kind+".go.tmpl"); fileExists(kp) {
+		tp = kp // a template for this kind of obligation of the unit
+	}
 	probes, tmpl, err := parseTemplate(tp)
 	if err != nil {
 		noteReplay(replayPath, "no replay template for "+unitKey)
